@@ -181,6 +181,8 @@ func init() {
 				return c05History(fn, args)
 			case 13, 14:
 				return c05Window(filepath.Join(dir, ".DIR.big"), ai(args[0][0]) == 14, args)
+			case 15:
+				return c05Sparse(dir, args)
 			case 10: // the delete tag the build uses
 				return okb([]byte(ptttype.FN_SAFEDEL))
 			}
